@@ -382,7 +382,11 @@ func (g *advGen) genMsg(r *kernel.Run) (sdk.Msg, string, string) {
 	case 2:
 		return &vtypes.MsgWithdrawAllAvailable{Owner: pickOwner()}, signer, route
 	case 3:
-		return &vtypes.MsgCreateVestingAccount{FromAddress: pickOwner(), ToAddress: g.addr(), Amount: g.coins(), StartTime: g.i64(now), EndTime: g.i64(now)}, signer, route
+		m := &vtypes.MsgCreateVestingAccount{FromAddress: pickOwner(), ToAddress: g.addr(), Amount: g.coins(), StartTime: g.i64(now), EndTime: g.i64(now)}
+		if rng.Intn(8) == 0 {
+			m.FromAddress = m.ToAddress // sender and recipient are the same address (possibly one that has no account)
+		}
+		return m, signer, route
 	case 4:
 		if len(g.w.VestActors) > 0 && rng.P(0.6) {
 			signer = g.w.VestActors[rng.Intn(len(g.w.VestActors))]
